@@ -77,6 +77,38 @@ def sorted_unsliced_sql(tree):
     return tree[0] == "select" and bool(tree[1]) and tree[4] == (0, None)
 
 
+def restricted_cases(rng, n):
+    """Operations whose expression only one engine kind supports, issued with every kind of preferred-engine option on
+    top of a multi-engine program: accepted only if the operation lands in a supporting engine."""
+    out, outcomes = [], {}
+    while len(out) < n:
+        p, cols = mp.gen_mprog(rng, rng.choice([0, 1, 2, 3]), p_opts=0.2, p_xfer=0.3)
+        w, rel, res = mp.run_build(p)
+        if rel is None or not rel.columns:
+            continue
+        eng = w.reg.engine(rel.engine)
+        col = rng.choice(sorted(rel.columns))
+        it_ok, sql_ok = (False, True) if eng[0] == "it" else (True, False)
+        e = ("supp", it_ok, sql_ok, ("ref", col))
+        supporting = [x for x in mp.ENGINES if (x[0] == "it") == it_ok]
+        opts = (rng.choice(supporting + [eng, None]), rng.random() < 0.7, rng.random() < 0.35, rng.random() < 0.3)
+        kind = rng.choice(["calc", "sel", "sort"])
+        if kind == "calc":
+            o = ("calc", gen.fresh_tag(rng, set(rel.columns)), ("add", e, ("lit", 1)))
+        elif kind == "sel":
+            o = ("sel", ("cmp", "lt", e, ("lit", 1)))
+        else:
+            o = ("sort", [(e, True)])
+        q = ("un", o, opts, p)
+        _w2, _rel2, res2 = mp.run_build(q)
+        t = enc.cresult(res2[0], enc.ctree(res2[1]) if res2[0] == "ok" else res2[1])
+        key = "accepted" if res2[0] == "ok" else res2[1]
+        outcomes[key] = outcomes.get(key, 0) + 1
+        out.append({"json": {"program": jsonable(q), "impl": jsonable(res2)}, "coq": f"SUPCase {mp.cprog(q)} {t}",
+                    "nontrivial": True, "key": mp.cprog(q)})
+    return out, outcomes
+
+
 def make_cases(rng, tier):
     n = 900 if tier == "quick" else 20000
     cases, extra_bad, kinds = [], [], {}
@@ -115,13 +147,20 @@ def run(ctx):
             4: "the ill-formed request returned a relation or raised an undocumented exception class"}
     summ = core.judge(ctx, cases, HDR, "check_ill", bits=bits)
     found |= summ["spec_failures"] > 0
+    rcases, routcomes = restricted_cases(rng, 300 if ctx.tier == "quick" else 6000)
+    rsumm = core.judge(ctx, rcases, HDR, "check_supp", prefix="cases_C20s",
+                       bits={1: "result (tree or exception class) differs from the model's",
+                             4: "an operation was accepted into an engine that does not support its expression, or refused with "
+                                "another class than EngineError"})
+    found |= rsumm["spec_failures"] > 0
     core.conclude_s1(ctx, s1, found or bool(ctx.violations))
     ctx.coverage.update({
         "evaluations": len(cases), "distinct_nontrivial": len({c["key"] for c in cases}),
         "rule": "a well-typed multi-engine program (any depth, any options) followed by one ill-formed call of one of 15 "
                 "kinds with random preferred-engine options; the exception class is compared with the documented one and "
                 "with the model's; existing relations are fingerprinted before and after; every case is non-trivial",
-        "edit_kinds": kinds, "traces_validated_against_impl": summ["evaluated"], "judgement": summ,
+        "edit_kinds": kinds, "traces_validated_against_impl": summ["evaluated"] + rsumm["evaluated"], "judgement": summ,
+        "engine_restricted_with_options": {"judgement": rsumm, "outcomes": routcomes},
         "samples": [cases[0]["json"], cases[-1]["json"]],
     })
     ctx.assumptions += ["when a request is ill-formed twice over (binary operation onto a sorted, unsliced SQL relation) either "
